@@ -106,7 +106,8 @@ def apply_fields(j):
         if len(old) != len(cur):
             continue
         for (on, ot), (cn, ct) in zip(old, cur):
-            if on != cn and ot == ct and on not in [c[0] for c in cur] and not cn.isdigit():
+            # (a named struct turned into a tuple struct has the positions as names: same rule, by position and type)
+            if on != cn and ot == ct and on not in [c[0] for c in cur]:
                 ren[(a['path'], cn)] = on
     if not ren:
         return j, {}
